@@ -913,7 +913,17 @@ func bindResults(env *Env, sig *types.Signature, results []Value) {
 	}
 	if n := len(results); n >= 1 {
 		if isErrorType(res.At(n - 1).Type()) {
-			env.vars["err"] = results[n-1]
+			// the conventional name err denotes the error result unless a parameter is called err
+			isParam := false
+			if env.x != nil {
+				_, isParam = env.x.params["err"]
+				if env.x.fn == nil || env.inCallee {
+					_, isParam = env.vars["err"]
+				}
+			}
+			if !isParam {
+				env.vars["err"] = results[n-1]
+			}
 		}
 	}
 }
